@@ -194,7 +194,57 @@ def init_behaviour(protocol, service):
     finally:
         c1.close()
         c2.close()
-    return own_copy, equals_defaults, overlaid, untouched, frozen
+    # which construction the heap model should use (Policy/Model.lean `InitMode`)
+    probe_arg = dict(allow_public_attrs=not before["allow_public_attrs"])
+    c3 = protocol.Connection(service.VoidService(), _NullChannel(), probe_arg)
+    try:
+        if c3._config is protocol.DEFAULT_CONFIG:
+            mode = 1
+        elif c3._config is probe_arg:
+            mode = 2
+        elif not frozen:
+            mode = 3
+        else:
+            mode = 0
+    finally:
+        c3.close()
+        if protocol.DEFAULT_CONFIG != before:
+            protocol.DEFAULT_CONFIG.clear()
+            protocol.DEFAULT_CONFIG.update(before)
+    return own_copy, equals_defaults, overlaid, untouched, frozen, mode
+
+
+def shares_safe_set(protocol, service):
+    c = protocol.Connection(service.VoidService(), _NullChannel(), {})
+    try:
+        return c._config["safe_attrs"] is protocol.DEFAULT_CONFIG["safe_attrs"]
+    finally:
+        c.close()
+
+
+def classic_aliasing(protocol, service):
+    """does a classic-mode connect write into the dict object the caller passed, and does it grow the shared default
+    `safe_attrs` set object in place (observed)"""
+    before = copy.deepcopy(protocol.DEFAULT_CONFIG)
+    arg = dict(allow_public_attrs=True, sync_request_timeout=17)
+    arg_before = dict(arg)
+    added = []
+    try:
+        conn = service.SlaveService._connect(_NullChannel(), arg)
+        try:
+            writes_arg = arg != arg_before
+            added = sorted(set(protocol.DEFAULT_CONFIG["safe_attrs"]) - set(before["safe_attrs"]))
+        finally:
+            conn.close()
+    finally:
+        s = protocol.DEFAULT_CONFIG.get("safe_attrs")
+        if isinstance(s, set):
+            for n in added:
+                s.discard(n)
+        if protocol.DEFAULT_CONFIG != before:
+            protocol.DEFAULT_CONFIG.clear()
+            protocol.DEFAULT_CONFIG.update(before)
+    return writes_arg, added
 
 
 def slave_update(protocol, service):
@@ -296,7 +346,8 @@ def gen_policy():
                for m, t, o, pk, d in sites], 1),
           "/-- handlers that obtain an attribute by calling `self._handle_getattr` (AST) -/",
           "def getattrDelegates : List String := " + lean_list([lean_str(d) for d in delegates], 5)]
-    own_copy, equals_defaults, overlaid, untouched, frozen = init_behaviour(protocol, service)
+    own_copy, equals_defaults, overlaid, untouched, frozen, mode = init_behaviour(protocol, service)
+    writes_arg, added = classic_aliasing(protocol, service)
     L += ["", "/-- `Connection.__init__`, observed: the connection's `_config` is its own dict (not DEFAULT_CONFIG, not shared),",
           "equals the defaults when no config is given, has the caller's keys overlaid, and neither DEFAULT_CONFIG nor the",
           "caller's dict is modified -/",
@@ -306,7 +357,16 @@ def gen_policy():
           "def initLeavesInputsAlone : Bool := %s" % lean_bool(untouched),
           "/-- ... and it is a snapshot: after the caller's dict and DEFAULT_CONFIG were edited (then restored), every key",
           "of both connections' `_config` still reads as it did right after construction -/",
-          "def initSnapshotFrozen : Bool := %s" % lean_bool(frozen)]
+          "def initSnapshotFrozen : Bool := %s" % lean_bool(frozen),
+          "/-- which construction the heap model uses: 0 own copy (the default `safe_attrs` set object stays shared), 1 the",
+          "DEFAULT_CONFIG object itself, 2 the caller's dict object itself, 3 a mapping that reads through to them -/",
+          "def initModeCode : Nat := %d" % mode,
+          "/-- a connection's `safe_attrs` IS the default set object when the caller gives none (shallow copy), observed -/",
+          "def initSharesDefaultSafeSet : Bool := %s" % lean_bool(shares_safe_set(protocol, service)),
+          "/-- classic mode, observed: does the connect write its overrides into the dict object the caller passed; which",
+          "names does it add in place to the default `safe_attrs` set object -/",
+          "def classicWritesCallerDict : Bool := %s" % lean_bool(writes_arg),
+          "def classicAddsToSafeCp : List (List Nat) := [%s]" % ", ".join(cps(n) for n in added)]
     # SlaveService.on_connect
     upd, unchanged = slave_update(protocol, service)
     known = dict(SWITCHES + OTHER_BOOLS)
